@@ -122,8 +122,15 @@ void run_cases(int n, case_fn fn, void *ctx, run_opts o, FILE *out) {
     }
     int chunk = o.always_fork_each ? 1 : (o.chunk > 0 ? o.chunk : 64);
     if(getenv("VF_FORK_EACH")) chunk = 1;
+    /* after this many hung cases the rest of the job is reported as not executed (timeout=2): a hang is a finding
+     * already, and a systematic one must not turn the exploration into hours of waiting */
+    int max_hangs = getenv("VF_MAX_TIMEOUTS") ? atoi(getenv("VF_MAX_TIMEOUTS")) : 4, hangs = 0;
     for(int a = 0; a < n; a += chunk) {
         int b = a + chunk < n ? a + chunk : n;
+        if(hangs >= max_hangs) {
+            for(int i = a; i < b; i++) fprintf(out, "X %d exit=0 sig=0 timeout=2 san=-\n", i);
+            continue;
+        }
         long tmo = (long)o.timeout_ms + 50L * (b - a);
         child_res r = run_child(a, b, fn, ctx, (int)tmo);
         bool clean = r.exit_code == 0 && r.sig == 0 && !san_dirty(&r.err);
@@ -133,10 +140,13 @@ void run_cases(int n, case_fn fn, void *ctx, run_opts o, FILE *out) {
         if(clean) {
             fwrite(r.out.p, 1, r.out.n, out);
         } else if(b - a == 1) {
+            if(r.timeout) hangs++;
             emit_single(a, &r, out);
         } else {
             for(int i = a; i < b; i++) {
+                if(hangs >= max_hangs) { fprintf(out, "X %d exit=0 sig=0 timeout=2 san=-\n", i); continue; }
                 child_res s = run_child(i, i + 1, fn, ctx, o.timeout_ms);
+                if(s.timeout) hangs++;
                 emit_single(i, &s, out);
                 blob_free(&s.out);
                 blob_free(&s.err);
